@@ -337,7 +337,9 @@ class Server(object):
         assert auth is not None
 
         try:
-            result = auth.server_attempt(arg)
+            # The exchange reads further lines from the client.
+            with Timeout(self.command_timeout):
+                result = auth.server_attempt(arg)
         except ValueError:
             bad_arguments.send(self.io)
             return
